@@ -56,6 +56,15 @@ ElemGood1(op, ev, N, ES, x, res) ==
 \* (sin_cos is not among the functions C15 lists and is in fact far less accurate than sin and cos --
 \*  sin_cos(4.0) is 137 / 1340 encodings off -- so its value is left unspecified: UnspecOps)
 ElemGood(ev, N, ES, x) == ElemGood1(ev.op, ev, N, ES, x, ev.r)
+\* diagnosis of a C15 failure: the smallest excess j in 1..11 for which the result is within Bound + j (99: further off)
+W15(ev, N, ES, x, j) ==
+  LET b2 == IF Len(x) > 1 THEN x[2] ELSE <<>>
+      v1 == V15K(ev.op, N, ES, x[1], b2, ev.r, 64, Bound(ev.op) + j)
+  IN IF v1 # "undecided" THEN v1 ELSE V15K(ev.op, N, ES, x[1], b2, ev.r, 200, Bound(ev.op) + j)
+RECURSIVE ExcessFrom(_, _, _, _, _)
+ExcessFrom(ev, N, ES, x, j) ==
+  IF j > 11 THEN 99 ELSE IF W15(ev, N, ES, x, j) # "wrong" THEN j ELSE ExcessFrom(ev, N, ES, x, j + 1)
+Excess15(ev, N, ES, x) == ExcessFrom(ev, N, ES, x, 1)
 
 -----------------------------------------------------------------------------
 (* register-file events *)
@@ -134,7 +143,8 @@ DiagOp(ev) ==
   ELSE IF ~OperandsMatch(ev) THEN <<"operands-do-not-match-registers">>
   ELSE IF ev.op = "poly" THEN <<"expected", PolyEv(ev, F)>>
   ELSE IF ev.op = "q_dot" THEN <<"expected", DotEv(ev, F)>>
-  ELSE IF IsElem(ev) THEN <<"enclosure-outside-allowed-cells", IF ev.t = "p32" THEN Bound(IF ev.op = "sin_cos" THEN "sin" ELSE ev.op) ELSE 0>>
+  ELSE IF IsElem(ev) THEN (IF ev.t = "p32" THEN <<"enclosure-outside-allowed-cells", Bound(ev.op), "excess", Excess15(ev, F[1], F[2], x)>>
+                           ELSE <<"enclosure-outside-allowed-cells", 0>>)
   ELSE IF ev.op \in FnOps THEN <<"expected", Fn(ev.op, ev.sp, F[1], F[2], x)>>
   ELSE <<"relation-violated">>
 
